@@ -96,11 +96,11 @@ int epoll_pwait(int epfd, struct epoll_event* ev, int max, int timeout, const si
       if (ev[i].data.fd == sfd) {
         found = 1;
         ev[i].events = (ev[i].events & ~strip_mask) | add_mask;
-        printf("env poll %u\n", ev[i].events);
+        printf("env poll %u\n", ev[i].events | ((h.s.io_watcher.pevents & POLLOUT) ? 65536u : 0u));
       }
     if (!found && add_mask && n < max) {
       ev[n].events = add_mask; ev[n].data.fd = sfd; n++;
-      printf("env poll %u\n", add_mask);
+      printf("env poll %u\n", add_mask | ((h.s.io_watcher.pevents & POLLOUT) ? 65536u : 0u));
     }
     strip_mask = add_mask = 0;
   }
@@ -210,6 +210,24 @@ static void peer_write(size_t n, int with_fd) {
   wait_ready();
 }
 
+/* a write too large for the socket buffers (the peer never reads): POLLOUT stays armed, so the
+ * watcher stays registered after UV_EOF / uv_read_stop.  Write side only; not part of the diff. */
+static void wbig_cb(uv_write_t* req, int status) {
+  printf("#wcb %d\n", status);
+  free(req->data); free(req);
+}
+static void do_wbig(void) {
+  size_t n = h.s.type == UV_TCP ? (32u << 20) : (2u << 20);
+  uv_write_t* req = malloc(sizeof(*req));
+  uv_buf_t b;
+  int rc;
+  req->data = calloc(1, n);
+  b = uv_buf_init(req->data, (unsigned) n);
+  rc = closing ? UV_EBADF : uv_write(req, &h.s, &b, 1, wbig_cb);
+  printf("#wbig %d wqs=%zu\n", rc, closing ? (size_t) 0 : uv_stream_get_write_queue_size(&h.s));
+  if (rc != 0) { free(req->data); free(req); }
+}
+
 static void do_op(char* w, int in_script) {
   (void) in_script;
   if (!strcmp(w, "start")) printf("ret start %d\n", uv_read_start(&h.s, alloc_cb, read_cb));
@@ -300,6 +318,9 @@ int main(void) {
         printf("op peer close\n");
         if (peerfd >= 0) { close(peerfd); peerfd = -1; peer_shut = 1; wait_ready(); }
       } else printf("bad-op\n");
+    } else if (!strcmp(line, "wbig")) {
+      printf("op wbig\n");
+      do_wbig();
     } else if (!strcmp(line, "end")) {
       break;
     } else if (!strcmp(line, "start") || !strcmp(line, "stop") || !strcmp(line, "close")) {
